@@ -18,8 +18,8 @@ pub struct C11;
 
 fn n_cases(tier: Tier) -> u64 {
     match tier {
-        Tier::Quick => 150_000,
-        Tier::Thorough => 3_000_000,
+        Tier::Quick => 300_000,
+        Tier::Thorough => 8_000_000,
     }
 }
 
